@@ -15,7 +15,7 @@ theorem itoa_ofNat (n : Nat) : itoa (n : Int) = natDigits n := by
   simp [this]
 
 theorem natDigits_ne_nil (n : Nat) : natDigits n ≠ [] := by
-  rw [natDigits]
+  rw [natDigits_eq]
   split <;> simp
 
 theorem natDigits_length_pos (n : Nat) : 0 < (natDigits n).length := by
@@ -25,15 +25,15 @@ theorem natDigits_length_pos (n : Nat) : 0 < (natDigits n).length := by
   | cons _ _ => simp
 
 theorem natDigits_length_le3 (n : Nat) (h : n < 1000) : (natDigits n).length ≤ 3 := by
-  rw [natDigits]
+  rw [natDigits_eq]
   split
   · simp
   · rename_i h10
-    rw [natDigits]
+    rw [natDigits_eq]
     split
     · simp
     · rename_i h100
-      rw [natDigits]
+      rw [natDigits_eq]
       have : n / 10 / 10 < 10 := by omega
       simp [this]
 
